@@ -54,7 +54,7 @@ func mustDoc(s string) interface{} {
 func newShared() *sharedState {
 	s := &sharedState{}
 	s.doc = mustDoc(`[{"a":1,"z":{"k":1,"j":2}},{"a":2,"b":[1,2,3]},{"b":1}]`)
-	s.big = mustDoc(`{"l":[{"a":1},{"a":2},{"a":3},{"a":4},{"a":5},{"a":6},{"a":7},{"a":8},{"a":9},{"a":10},{"a":11},{"a":12},{"a":13},{"a":14},{"a":15},{"a":16},{"a":17},{"a":18},{"a":19},{"a":20}],"x":2,"m":{"q":1,"r":{"s":2,"t":3}}}`)
+	s.big = mustDoc(`{"s":["xxxxxxxxxxxxxxxxxxxxxxxxxxxxxxxxxxxxxxxxxxxxxxxxxxxxxxxxxxxxxxxx-match","yyyyyyyyyyyyyyyyyyyyyyyyyyyyyyyyyyyyyyyyyyyyyyyyyyyyyyyyyyyyyyyyyyyyyyyy","xxxxxxxxxxxxxxxxxxxxxxxxxxxxxxxxxxxxxxxxxxxxxxxxxxxxxxxxxxxxxxxx-match-2","zzzzzzzzzzzzzzzzzzzzzzzzzzzzzzzzzzzzzzzzzzzzzzzzzzzzzzzzzzzzzzzzzzzzzzzzzz","short"],"l2":[{"a":1},{"a":2},{"a":3}],"l":[{"a":1},{"a":2},{"a":3},{"a":4},{"a":5},{"a":6},{"a":7},{"a":8},{"a":9},{"a":10},{"a":11},{"a":12},{"a":13},{"a":14},{"a":15},{"a":16},{"a":17},{"a":18},{"a":19},{"a":20}],"x":2,"m":{"q":1,"r":{"s":2,"t":3}}}`)
 	s.cfgA = modelConfig(nil, false)
 	s.cfgB = modelConfig(nil, true)
 	mk := func(p string) evalFn {
@@ -401,6 +401,8 @@ func raceCorpus(s *sharedState, yield bool) []raceOp {
 		`$.l[?(@.a == $.x)]`, `$.l[?($.x == 2)]`, `$.l[?($.x == 3)]`, `$.l[?(1 == 2)]`, `$.l[?(1 < $.x)]`, `$.l[?(3 < $.x)]`, `$.l[?(3 <= $.x)].a`, `$.l[?($.x > @.a)]`, `$.l[?(@.zz != $.zz)]`, `$.l[?(@.a =~ /a/)]`, `$.l[?(@.a == 1 || @.a == 3)]`,
 		`$.l[?(@.a > 1 && @.a < 4)]`, `$.l[?(@.a.twice() == 4)]`, `$.l[*].a.sum()`, `$..a.sum()`, `$.l[?(@.a)].a.sum().twice()`, `$.m.r[?(@ > 1)]`, `$.m..[?(@)]`, `$.l[?($)]`, `$.l[?(!$.nosuch)].a`,
 		`$.nosuch`, `$.l.a`, `$.x[0]`,
+		// per-node scratch state shows when one parsed function is used on inputs of different sizes / contents at once
+		`$.s[?(@ =~ /match/)]`, `$.s[?(@ =~ /^y/)]`, `$..[-2:]`, `$..[1:3]`, `$..[::2]`, `$..[?(@.a > 1)]`, `$..[*,0]`,
 		// operands that are absent for every member / absent `$` operands, with every validator type:
 		// these evaluations hand the package-level emptyList / fullList through the comparators
 		`$.l[?(@.zz == 'x')]`, `$.l[?(@.zz != 'x')].a`, `$.l[?(@.zz =~ /x/)]`, `$.l[?($.zz == 'x')]`, `$.l[?(@.zz == 1)]`, `$.l[?(@.zz > 1)]`, `$.l[?(@.zz == true)]`,
